@@ -546,7 +546,8 @@ import symtable
 
 NAME_PAIRS = [("myVar", "my_var"), ("myVar", "MY_VAR"), ("myVar", "my_Var"), ("MyVar", "myVar"), ("_myVar", "myVar"),
               ("Id", "id"), ("Class_", "class_"), ("var_1", "var_2"), ("a", "b"), ("x1", "X1"), ("_1x", "x"),
-              ("é", "e"), ("naïve", "na_ve"), ("ABc", "a_bc"), ("a_b", "AB"), ("HTTPServer", "http_server")]
+              ("é", "e"), ("naïve", "na_ve"), ("ABc", "a_bc"), ("a_b", "AB"), ("HTTPServer", "http_server"),
+              ("_", "x"), ("__t2", "_t2"), ("__x__", "x")]
 
 # closed programs; {A} is bound in the way the template's name says, {B} is the adversary
 TEMPLATES = {
@@ -626,12 +627,22 @@ def run_program(src: str):
         return (out.getvalue(), type(e).__name__)
 
 
-def _sym_rows(table):
+def _unmangle(name: str, cls) -> str:
+    """class-private names appear mangled (_K__x) in the symbol tables of a class and of what it contains"""
+    if cls:
+        prefix = "_" + cls.lstrip("_") + "__"
+        if name.startswith(prefix) and not name.endswith("__"):
+            return "__" + name[len(prefix):]
+    return name
+
+
+def _sym_rows(table, cls=None):
     rows = []
     for s in table.get_symbols():
-        rows.append((s.get_name(), (s.is_local(), s.is_global(), s.is_parameter(), s.is_free(), s.is_imported(),
-                                     s.is_assigned(), s.is_referenced(), s.is_namespace(), s.is_nonlocal(),
-                                     s.is_declared_global())))
+        # is_namespace() is not compared: symtable does not find the child namespace of a class-private
+        # (mangled) name; nested scopes are compared structurally instead
+        rows.append((_unmangle(s.get_name(), cls), (s.is_local(), s.is_global(), s.is_parameter(), s.is_free(), s.is_imported(),
+                                     s.is_assigned(), s.is_referenced(), s.is_nonlocal(), s.is_declared_global())))
     return rows
 
 
@@ -651,14 +662,16 @@ def binding_structure_diff(before: str, after: str):
             return f"identifiers {inv[y]!r} and {x!r} both become {y!r}"
         return None
 
-    def walk(a, b):
+    def walk(a, b, ca=None, cb=None):
         if a.get_type() != b.get_type():
             return f"scope kinds differ: {a.get_type()} / {b.get_type()}"
         if a.get_name() != "top":
             d = bind(a.get_name(), b.get_name())
             if d:
                 return d
-        ra, rb = _sym_rows(a), _sym_rows(b)
+        if str(a.get_type()).endswith("class"):
+            ca, cb = a.get_name(), b.get_name()
+        ra, rb = _sym_rows(a, ca), _sym_rows(b, cb)
         if len(ra) != len(rb):
             return f"scope {a.get_name()!r}: {len(ra)} symbols before, {len(rb)} after ({[r[0] for r in ra]} / {[r[0] for r in rb]})"
         for (na, fa), (nb, fb) in zip(ra, rb):
@@ -667,11 +680,11 @@ def binding_structure_diff(before: str, after: str):
             d = bind(na, nb)
             if d:
                 return d
-        ca, cb = a.get_children(), b.get_children()
-        if len(ca) != len(cb):
+        ka, kb = a.get_children(), b.get_children()
+        if len(ka) != len(kb):
             return f"scope {a.get_name()!r}: number of nested scopes differs"
-        for x, y in zip(ca, cb):
-            d = walk(x, y)
+        for x, y in zip(ka, kb):
+            d = walk(x, y, ca, cb)
             if d:
                 return d
         return None
@@ -805,7 +818,7 @@ import re  # noqa: E402
 def generated_case_coq(kind, used, got) -> str:
     g = glist(got, gident)
     if kind == "loop":
-        return f"(list_eqb (firstn {len(got)} (loop_names {glist(used, gident)})) {g})"
+        return f"(list_eqb (firstn 30 (loop_names {glist(used, gident)})) {g})"
     if kind == "var":
         return f"(list_eqb (var_names {glist(used, gident)} {len(got)}) {g} && Nat.eqb {len(got)} 2)"
     if kind == "keys":
@@ -824,10 +837,20 @@ def _sig_non_ascii_columns(case) -> bool:
     return not case["source"].isascii()
 
 
-SIGS = {"non_ascii_columns": _sig_non_ascii_columns}
-# which rules call core.get_charnos on the way (all of them rewrite through processing / _fix_variable_names)
-SITE_OF_RULE = {"align": "core.get_charnos", "undefine": "core.get_charnos", "dup": "core.get_charnos",
-                "format_code": "core.get_charnos"}
+def _sig_underscore_is_read(case) -> bool:
+    """the program reads a variable called `_` (which the tool treats as 'never used' by convention)"""
+    return any((isinstance(n, ast.Name) and n.id == "_" and isinstance(n.ctx, ast.Load))
+               or (isinstance(n, ast.Attribute) and n.attr == "_")
+               for n in ast.walk(ast.parse(case["source"])))
+
+
+SIGS = {"non_ascii_columns": _sig_non_ascii_columns, "underscore_is_read": _sig_underscore_is_read}
+# call sites per rule: every rule rewrites through processing / _fix_variable_names, which call
+# core.get_charnos; the rule itself is the second site
+SITES_OF_RULE = {"align": ("core.get_charnos", "fixes.align_variable_names_with_convention"),
+                 "undefine": ("core.get_charnos", "fixes.undefine_unused_variables"),
+                 "dup": ("core.get_charnos", "fixes.remove_duplicate_functions"),
+                 "format_code": ("core.get_charnos", "fixes.undefine_unused_variables")}
 
 
 def match_finding(findings, rule, case):
@@ -835,7 +858,7 @@ def match_finding(findings, rule, case):
         if f.kind != "finding":
             continue
         pred = SIGS.get(f.fields.get("sig", ""))
-        if pred is None or f.fields.get("site") != SITE_OF_RULE.get(rule):
+        if pred is None or f.fields.get("site") not in SITES_OF_RULE.get(rule, ()):
             continue
         try:
             if pred(case):
@@ -1103,7 +1126,8 @@ def check(run: common.Run):
             if f and w["rule"] == "format_code" and "raised" not in f["problem"]:
                 f = None
         if f:
-            regressions.append(dict(fixed_id=w["id"], what=w["what"], **{k: v for k, v in w.items() if k in ("rule", "source", "input")}, **f))
+            regressions.append({"fixed_id": w["id"], "what": w["what"],
+                                **{k: v for k, v in w.items() if k in ("rule", "source", "input")}, **f})
     for f in kf:
         if f.kind == "finding":
             hits = known_hits.get(f.id, [])
@@ -1121,23 +1145,23 @@ def check(run: common.Run):
         for d in disagreements:
             if d[0] == "naming":
                 key = (d[1]["function"], d[1]["input"])
-                if key in seen or len(seen) > 400:
+                if key in seen or len(seen) >= 40:
                     continue
                 seen.add(key)
                 f = naming_property_fails(mods, TAGS.index(d[1]["function"]), d[1]["input"])
                 if f:
-                    found.append(dict(kind="property-oracle", site="style." + d[1]["function"], **f))
+                    found.append({"kind": "property-oracle", "site": "style." + d[1]["function"], **f})
             elif d[0] in ("align", "uses") and "source" in d[1]:
                 f = oracle(mods, "align", d[1]["source"], structure=True)
                 if f:
-                    found.append(dict(kind="property-oracle", site="fixes.align_variable_names_with_convention",
-                                      source=d[1]["source"], **f))
+                    found.append({"kind": "property-oracle", "site": "fixes.align_variable_names_with_convention",
+                                  "source": d[1]["source"], **f})
             elif d[0] == "generated":
                 rule = {"var": "if_flow", "keys": "keys", "overused": "overused"}.get(d[1]["kind"])
                 if rule:
                     f = oracle_any(mods, rule, d[1]["source"])
                     if f:
-                        found.append(dict(kind="property-oracle", site=rule, source=d[1]["source"], **f))
+                        found.append({"kind": "property-oracle", "site": rule, "source": d[1]["source"], **f})
             if len(found) >= 3:
                 break
         if not found:
@@ -1155,18 +1179,20 @@ def check(run: common.Run):
                 for rule in ("align", "undefine", "dup"):
                     f = oracle(mods, rule, src, structure=(rule == "align"))
                     if f and not match_finding(kf, rule, dict(source=src)):
-                        found.append(dict(kind="property-oracle", site=rule, template=tname, names=[a, b], source=src, **f))
+                        found.append({"kind": "property-oracle", "site": rule, "template": tname, "names": [a, b],
+                                      "source": src, **f})
                         break
                 if found:
                     break
 
     # ---- verdicts
     for c in failures[:5]:
-        run.violation(dict(kind="property-oracle", site=c["rule"],
-                           explanation="a renaming rule changed the behaviour or the binding structure of a closed "
-                                       "program and no listed finding matches", **c), True)
+        run.violation({"kind": "property-oracle", "site": c["rule"],
+                       "explanation": "a renaming rule changed the behaviour or the binding structure of a closed "
+                                      "program and no listed finding matches", **c}, True)
     for r in regressions[:5]:
-        run.violation(dict(kind="fixed-witness-regressed", explanation="the witness of a repaired defect fails again", **r), True)
+        run.violation({"kind": "fixed-witness-regressed",
+                       "explanation": "the witness of a repaired defect fails again", **r}, True)
     for src, err in crashes[:3]:
         run.violation(dict(kind="property-oracle", site="fixes.align_variable_names_with_convention", source=src,
                            problem="the rule raised " + err, explanation="renaming rule crashed on a valid module"), True)
@@ -1174,7 +1200,7 @@ def check(run: common.Run):
         run.violation(dict(kind="property-oracle", site="style." + fn, input=s, problem=f"raised {cls}",
                            explanation="a naming function raised on a name"), True)
     for f in found[:3]:
-        run.violation(dict(explanation="found by the failing-input search after a proof/correspondence broke", **f), True)
+        run.violation({"explanation": "found by the failing-input search after a proof/correspondence broke", **f}, True)
     if not found and not failures and not regressions:
         for d in disagreements[:5]:
             run.violation(dict(kind="correspondence", kernel="K9", part=d[0], detail=d[1:],
